@@ -65,6 +65,34 @@ fn pool_scenario() {
             assert_eq!(cells[i], (j * 100 + i + 1) as u64, "write of call {i} of broadcast {j} not visible");
         }
     }
+    // The caller's call panics with a payload whose destructor panics too:
+    // `broadcast` then unwinds — but only after every worker is done with the
+    // stack-resident shared block (else: use of a dead frame, which Miri
+    // reports).
+    for n in [1usize, 2] {
+        struct DropBomb;
+        impl Drop for DropBomb {
+            fn drop(&mut self) {
+                if !std::thread::panicking() {
+                    std::panic::resume_unwind(Box::new(()));
+                }
+            }
+        }
+        let finished = AtomicUsize::new(0);
+        let r = std::panic::catch_unwind(std::panic::AssertUnwindSafe(|| {
+            pool.broadcast(n, |i| {
+                if i == 0 {
+                    std::panic::resume_unwind(Box::new(DropBomb));
+                }
+                for _ in 0..20 {
+                    std::thread::yield_now();
+                }
+                finished.fetch_add(1, Relaxed);
+            })
+        }));
+        assert!(r.is_err(), "the payload's destructor panicked: broadcast unwinds");
+        assert_eq!(finished.load(Relaxed), n, "broadcast came back before its calls had finished");
+    }
     // Index 0 finishes last: the caller's very first look at the countdown
     // already sees zero, so whatever orders the return after the workers'
     // calls must be on that path too.
